@@ -38,18 +38,23 @@ CLAIMS = {
   extra_note=' ASA crypto maps with crypto ACLs, IKEv1 transform-sets and IKEv2 ipsec-proposals are generated separately and executed on Cisco/Vpn.v (device model and oracle without a convergence theorem).',
   technique='Coq proof of the ACL line core for all valid edit scripts + execution of the real script on a Coq device semantics'),
  'C02': dict(
-  text='The numbering core of diffIOSACLs (resequence, numbered inserts, deletes, joined moves, direction-aware move suppression inside '
-       'blocks, block splitting) is an executable Gallina model compared number by number with the implementation and executed on a strict '
-       'numbered-ACL device; for move-free scripts convergence is proved for all scripts, otherwise equivalence modulo permutation inside '
-       'same-action runs is evaluated in Coq on both scripts. Whole IOS '
-       'configurations (interfaces, shared ACLs, routes) are executed on the Coq device semantics with a silent second compare.',
-  design_ref='DESIGN.md section 4, C02',
-  note='Trusted: as C01. Partial: the convergence theorem (C02_ios_fresh_script_converges_partial) covers every edit script in which no line '
-       'occurs twice (nothing is moved) with inserted runs shorter than 10000 lines: all numbered commands are accepted and the result is '
-       'exactly the target ACL. Scripts with moves (a line deleted and inserted again, the direction-aware suppression inside a block) are '
-       'covered by the exact correspondence and the per-case evaluation only. Log attribute differences inside a block are not applied by '
-       'the tool (documented observation, not part of filtering).',
-  technique='Coq theorem (numbered inserts and deletes converge for all move-free edit scripts) + executable Gallina model of the full numbering core checked against the implementation + Coq device semantics as oracle'),
+  text='C02_ios_acl_equiv: for EVERY edit script between a device ACL and a target ACL in which no line occurs twice (IOS refuses such '
+       'ACLs) and every inserted run has fewer than 10000 lines — all block structures, remarks, log variants, moves in both directions, any '
+       'number of insert ranges — every numbered command of the model of diffIOSACLs (numbered insert, joined "no N / M line", delete by '
+       'number) is accepted by the strict numbered ACL of the device, and the rules the device then holds differ from the rules of the target '
+       'only by exchanges of neighbouring rules with the same action (remarks and log attributes dropped); C02_sw_equiv_same_filtering: such '
+       'ACLs give every packet the same first-match verdict for every matcher. The proof goes through invariants of the block ids of '
+       'markIOSPermitDenyBlocks and the split pass (an id covers an interval, one action per id, an unsplit insert run inside a block has the '
+       'action of the block) and shows that every suppressed move crosses only rules of its own action. The model (Cisco/IosAcl.v) is compared '
+       'number by number with the implementation on generated ACL pairs (blocks, remarks, split shapes, log variants) with the edit script of '
+       'the library the tool calls; the resulting ACL is compared a second time by the real tool. Whole IOS configurations (interfaces, shared '
+       'ACLs, routes) are executed on the Coq device semantics with a silent second compare.',
+  design_ref='DESIGN.md section 4, C02 and section 10',
+  note='Trusted: as C01; the edit script itself comes from github.com/pkg/diff/myers (the theorem holds for every script, not only minimal ones). '
+       'Not proved: that a second compare is silent (it depends on the edit script the library chooses for the new state; tested, known finding '
+       'F-C02-2 for remark lines), routes per VRF and crypto filter ACLs (executed on the device model only). Two defects found while stating the '
+       'theorem were repaired in /repo (8935ef2 trailing remarks of a block, 67efe5b log attribute inside a block).',
+  technique='Coq theorem for all edit scripts (acceptance of every numbered command and filtering equivalence of the result, via block-id invariants) + executable Gallina model of the numbering core checked number by number against the implementation + Coq device semantics as oracle'),
  'C07': dict(
   text='C07_frame_every_prefix: on the strict device semantics an accepted command changes only the objects it names, hence a script that '
        'never names an ACL, object-group, binding or route outside Netspoc\'s scope leaves them untouched after every prefix (interrupted runs '
@@ -75,7 +80,7 @@ CLAIMS = {
        'rendered by the Coq device, the real tool is run again on it, its script is executed on the Coq device, and a third compare must be silent.',
   design_ref='DESIGN.md section 4, C10',
   note='Trusted: as C01. Cuts between the halves of a joined command are covered by C10_device_states_stay_wellformed for the core only.',
-  extra_note=' ASA crypto: every prefix state of the crypto script is resumed on Cisco/Vpn.v (cuts inside the sub-mode block of an ipsec-proposal included); known finding F-C10-1 (entry left without peer).',
+  extra_note=' ASA crypto: every prefix state of the crypto script is resumed on Cisco/Vpn.v (cuts inside the sub-mode block of an ipsec-proposal included); known finding F-C10-1 (entry left without peer). NSX and PAN-OS: every prefix state of the request / command sequence is computed by Nsx/Device.v / Panos/Device.v, rendered, compared again by the real tool, the resumed script executed on the model (must be accepted, reach the target, leave no generated object behind) and a third compare must be silent.',
   technique='Coq resumability theorem for the line core + prefix-state replay of real scripts through the Coq device'),
  'C14': dict(
   text='C14_linux_routes_covered_stepwise: Coq theorem (all route lists, every prefix). C14_acl_insert_then_delete_safe_partial: Coq theorem '
@@ -117,7 +122,7 @@ CLAIMS = {
  'C15': dict(
   text='C15_guard_brackets_changes with C15_ios_plan_is_guarded: for every script and every device behaviour each change is sent under an '
        'accepted reload guard, the configuration is saved only after its cancellation and only if no effective fault occurred. Banner '
-       'transparency is decided on the real tool: kinds {2:00, 1:00} x five forms x every command position of the guarded region; outcome and '
+       'transparency is decided on the real tool: kinds {2:00, 1:00, aborted} x five forms x every command position of the guarded region; outcome and '
        'change commands must equal the banner-free run and the one-minute warning must re-arm the reload.',
   design_ref='DESIGN.md section 4, C15',
   note='Trusted: the five banner forms as produced by sim/simdev.py. Known findings F-C15-1, F-C15-2; F-C15-3 fixed.',
@@ -135,7 +140,8 @@ CLAIMS = {
        'process per device holds the lock and a rejected run has touched nothing; C12_lock_released_with_holder / C12_free_lock_is_acquired: '
        'the lock goes with its holder. C12_call_order_of_the_front_ends is re-proved on every run against call sequences regenerated from '
        'doapprove/main.go and drc/main.go (nothing effectful before the lock is taken and checked). Real processes: a holder parked by the '
-       'simulator in each phase, 2-3 contenders through both front-ends and five spellings of the device, holder released or killed, later run.',
+       'simulator in each phase, 2-3 contenders through both front-ends and five spellings of the device, holder released or killed, later run; '
+       'all processes run with GOGC=1 so that garbage collection (finalizers of unreferenced file handles) is part of the explored schedule.',
   design_ref='DESIGN.md section 4, C12',
   note='Trusted: flock(2) semantics (exclusive, non-blocking, released on exit or kill) = the lock table of Lock/Model.v, validated by the '
        'multi-process runs; the regex translator for the call order.',
@@ -145,7 +151,9 @@ CLAIMS = {
        'commands break the tie) and must pass the verified checker; C19_invariant_for_all_histories_and_kill_points then gives, for every history '
        'of compiling / non-compiling revisions and every kill position of every run: current absent or a complete directory, nothing moved into '
        'an existing directory, numbers strictly increasing, a non-compiling commit never changes current. The real script is killed before each '
-       'of its ~90 simple commands (real git, stub compiler) for three histories, followed by an undisturbed run; two invocations at once.',
+       'of its ~90 simple commands (real git, stub compiler) for three histories, followed by an undisturbed run; two invocations at once, and a second '
+       'invocation while the first is parked before its K-th command (an invocation that finds the lock taken must leave the database untouched). The parts of '
+       'the script that are not translated statement by statement (top-level skeleton, uptodate, try_revert, main) are tied by their text.',
   design_ref='DESIGN.md section 4, C19',
   note='Trusted: git and flock(1); the regex translator; push failures not modelled. Liveness (next undisturbed run publishes the newest '
        'compiling revision) is proved for a run that reaches the compiler (C19_undisturbed_run_publishes_partial) and checked dynamically for '
